@@ -32,6 +32,25 @@ fn pool(rng: &mut Rng, n_inputs: usize) -> Vec<Case> {
             bases.push(with_nl);
         }
     }
+    // siblings: the same text with every non-ASCII character moved to the same position of another plane
+    // (+0x10000, +0x20000) or folded back into the basic plane (low 16 bits) – distinct characters that any
+    // narrowed, folded or hashed-down per-character cache key would confuse
+    for k in 0..nb.min(6) {
+        if let Ok(t) = String::from_utf8(bases[k].clone()) {
+            for delta in [0x10000u32, 0x20000] {
+                let moved: String = t.chars().map(|c| if (c as u32) >= 0x80 && (c as u32) < 0x10000 { char::from_u32(c as u32 + delta).unwrap_or(c) } else { c }).collect();
+                if moved != t {
+                    bases.push(moved.into_bytes());
+                }
+            }
+        }
+    }
+    for t in ["\u{1d552}\u{1d553}\u{1d554} \u{1d555}\u{1d556}\u{1d557}\u{1d558} \u{1d559}\u{1d55a}\u{1d55b}\u{1d55c}\u{1d55d} \u{1d55e}\u{1d55f}\u{1d560}\u{1d561} \u{1d562}\u{1d563}\u{1d564}\u{1d565}\u{1d566} \u{1d567}\u{1d568}\u{1d569}\u{1d56a}\u{1d56b} text in double-struck letters, ", "\u{20000}\u{20001}\u{2000b}\u{20089}\u{200a2}\u{200a4}\u{201a2}\u{20213}\u{2032b}\u{20371}\u{20381}\u{203f9}\u{2044a}\u{20509}\u{205d6}\u{20628}\u{2074f}\u{20807} "] {
+        let t = t.repeat(6);
+        let folded: String = t.chars().map(|c| if (c as u32) >= 0x10000 { char::from_u32(c as u32 & 0xffff).unwrap_or(c) } else { c }).collect();
+        bases.push(t.into_bytes());
+        bases.push(folded.into_bytes());
+    }
     for b in bases {
         let mut variants = vec![Sett::default()];
         let mut s = Sett::default();
@@ -163,6 +182,36 @@ pub fn run(thorough: bool, seed: u64, _replay: Option<String>) -> Report {
         };
         if show(&a) != show(&b) {
             rep.fail("oracle", "C11:coherence-ratio-memo-differs", &format!("lthr {} langs {:?}: memo {} recomputed {}", lthr, langs.iter().map(|l| format!("{}", l)).collect::<Vec<_>>(), show(&a), show(&b)), text.as_bytes(), None, "coherence_ratio");
+        }
+    }
+    // per-character classification: a character asked after one of its look-alikes in key space (same low
+    // 16 bits / other plane / other case) must be classified as on a cold cache
+    let n_ch = if thorough { 20000 } else { 2500 };
+    for i in 0..n_ch {
+        let c0 = loop {
+            let x = if i % 3 == 0 { rng.below(0x3000) as u32 } else { rng.below(0x30000) as u32 };
+            if let Some(c) = char::from_u32(x) {
+                break c;
+            }
+        };
+        let aliases: Vec<char> = [c0 as u32 ^ 0x10000, (c0 as u32 & 0xffff) + 0x20000, c0 as u32 & 0xffff, c0 as u32 & 0xff, (c0 as u32).wrapping_add(0x100000) & 0x10ffff]
+            .iter()
+            .filter_map(|x| char::from_u32(*x))
+            .chain(c0.to_lowercase())
+            .chain(c0.to_uppercase())
+            .filter(|c| *c != c0)
+            .collect();
+        vh::flush_caches();
+        let cold = vh::char_info(c0);
+        for a in aliases {
+            vh::flush_caches();
+            let _ = vh::char_info(a);
+            let warm = vh::char_info(c0);
+            rep.oracle_checked += 1;
+            rep.evaluations += 1;
+            if warm != cold {
+                rep.fail("oracle", "C11:character-memo-differs", &format!("U+{:04X} classified as {:?} on a cold cache but as {:?} after U+{:04X}", c0 as u32, cold, warm, a as u32), c0.to_string().as_bytes(), None, "char_info");
+            }
         }
     }
     for n in supported() {
